@@ -109,8 +109,10 @@ pub fn generate(seed: u64, tier: &str, sink: &mut Sink) {
             0 => {
                 head.extend_from_slice(if coding == "gzip-te" { b"Transfer-Encoding: gzip, chunked\r\n" } else { b"Transfer-Encoding: chunked\r\n" });
                 let mut i = 0;
+                // chunk sizes: small pieces, or a few large chunks (beyond the 64 KiB piece buffer)
+                let big_chunks = rng.chance(1, 3);
                 while i < wire_body.len() {
-                    let k = rng.range(1, 5000) as usize;
+                    let k = if big_chunks { rng.range(60_000, 200_000) as usize } else { rng.range(1, 5000) as usize };
                     let piece = &wire_body[i..(i + k).min(wire_body.len())];
                     body.extend_from_slice(format!("{:x}\r\n", piece.len()).as_bytes());
                     body.extend_from_slice(piece);
